@@ -173,7 +173,7 @@ func floatsN(t *rapid.T, n int) ([]uint64, string) {
 }
 
 func stringsN(t *rapid.T, n int) ([][]byte, string) {
-	shape := rapid.SampledFrom([]string{"empty", "short", "repetitive", "incompressible", "mixed", "long", "same"}).Draw(t, "sshape")
+	shape := rapid.SampledFrom([]string{"empty", "short", "repetitive", "incompressible", "mixed", "long", "same", "bulk"}).Draw(t, "sshape")
 	vals := make([][]byte, n)
 	for i := range vals {
 		vals[i] = []byte{}
@@ -197,6 +197,14 @@ func stringsN(t *rapid.T, n int) ([][]byte, string) {
 	case "incompressible":
 		for i := range vals {
 			vals[i] = rapid.SliceOfN(rapid.Byte(), 0, 60).Draw(t, "b")
+		}
+	case "bulk":
+		// several hundred incompressible bytes per row (chunks beyond the 64 KiB single-read limit); the bytes are a fixed
+		// function of a drawn seed, so the case stays a function of the rapid draws
+		seed := rapid.Uint64().Draw(t, "bulkseed")
+		ln := rapid.IntRange(200, 900).Draw(t, "bulklen")
+		for i := range vals {
+			vals[i] = expandBytes(seed+uint64(i)*0x9e3779b97f4a7c15, ln+i%7)
 		}
 	case "long":
 		for i := range vals {
@@ -553,4 +561,22 @@ func allCols(m *mRec) []int {
 		o[i] = i
 	}
 	return o
+}
+
+// expandBytes is a pure function (xorshift64*) from a seed to n bytes.
+func expandBytes(seed uint64, n int) []byte {
+	if seed == 0 {
+		seed = 0x2545F4914F6CDD1D
+	}
+	b := make([]byte, n)
+	for i := 0; i < n; i += 8 {
+		seed ^= seed >> 12
+		seed ^= seed << 25
+		seed ^= seed >> 27
+		v := seed * 0x2545F4914F6CDD1D
+		for j := 0; j < 8 && i+j < n; j++ {
+			b[i+j] = byte(v >> (8 * j))
+		}
+	}
+	return b
 }
